@@ -13,18 +13,21 @@ META = dict(
          "and one body piece, stream: a generator without a length yielding several pieces (one of them empty), empty: no length "
          "and an empty iterable}; all 3 + 9 + 27 kind sequences. Schedule: the driver alternates Patron.serviceAll / "
          "Valet.serviceAll; servicing the same side again costs one deviation; every recv on either side may return 1 byte, half, "
-         "or all but one byte of what is waiting instead of everything (one deviation each); all schedules with <= 2 deviations "
+         "or all but one byte of what is waiting instead of everything (one deviation each); every request may reach the server "
+         "in two pieces with a server pass in between - the client socket accepts it only up to a cut inside the request line, "
+         "after the request line, after the first header, before the blank line, between head and body or inside the body (one "
+         "deviation per fragmented request); all schedules with <= 2 deviations "
          "(quick; POST with N = 3 is left to the thorough tier) / <= 4 for N = 1 and the burst mode, <= 3 for N = 2 and "
          "N = 3 (thorough). A second mode sends the N requests in one burst from a raw client socket (requests "
-         "pipelined on the wire) and enumerates the server-side short reads. Required: nothing raises; the client gets exactly N "
+         "pipelined on the wire) and enumerates the server-side short reads and every two-piece split of the burst at the same cut positions of each request. Required: nothing raises; the client gets exactly N "
          "responses, in request order, each carrying the request that caused it (rid, path) and exactly the body the app produced "
          "for that request, both when delivered and at the end of the run; the app is called once per request in order; the bytes "
          "the server sent parse as exactly N self-delimiting responses (Content-Length or chunked) with the right bodies; the "
          "connection is still open on both sides and no second socket was opened; under fair alternation the exchange completes "
          "within a fixed number of service calls (a client waiting for a close to finish a response is a violation).",
     note="Socket doubles replace loopback sockets so that the harness owns the schedule. Short reads are limited to three cut "
-         "points per recv (every cut point of a message is C29's subject). Partial sends, connection loss and timeouts are not "
-         "explored here (C24-C28). N <= 3, deviation bound as stated; the liveness window is 14 service calls per request.",
+         "points per recv (every cut point of a message is C29's subject). Server-side partial sends, connection loss and timeouts are "
+         "not explored here (C24-C28); the only partial sends are the client's two-piece requests. N <= 3, deviation bound as stated; the liveness window is 14 service calls per request.",
 )
 from mc import core, net, httpharness as hh
 
@@ -113,11 +116,49 @@ def wire_verdict(sent, reqs):
     return out
 
 
+def request_cuts(msg):
+    """Interesting places to cut a request into two pieces: inside the request line, after the request line,
+    after the first header line, before the blank line, between head and body, inside the body."""
+    msg = bytes(msg)
+    n = len(msg)
+    l1 = msg.find(b"\r\n") + 2
+    l2 = msg.find(b"\r\n", l1) + 2
+    he = msg.find(b"\r\n\r\n") + 4
+    out = []
+    for k in (5, l1, l2, he - 2, he, he + 1):
+        if 0 < k < n and k not in out:
+            out.append(k)
+    return out
+
+
+class SchedPolicy(hh.CutPolicy):
+    """CutPolicy (three short-read lengths per recv) plus: a send of the client that carries a whole request
+    may be accepted only up to one of `request_cuts` (one deviation), so that the request reaches the server
+    in two pieces with a server pass in between."""
+
+    def __init__(self, chooser):
+        hh.CutPolicy.__init__(self, chooser)
+        self.current_request = lambda: b""
+
+    def decide(self, sock, op, cands):
+        if op == "send" and len(cands) > 1 and cands[0][0] == "n":
+            n = cands[0][1]
+            msg = self.current_request()
+            keep = [0]
+            if len(msg) == n:
+                keep += [cands.index(("n", k)) for k in request_cuts(msg) if ("n", k) in cands]
+            if len(keep) == 1:
+                return 0
+            return keep[self.ch.choose(len(keep), "%s.send" % sock.name, 0, self.cost)]
+        return hh.CutPolicy.decide(self, sock, op, cands)
+
+
 def execute(ch, mode, kinds, method, part, states):
     """One execution. -> (list of (kind, what), schedule tokens, fn, extra)"""
     from ioflo.aio.http import serving, clienting
     FSM = hh.setup()
-    fn = net.FakeNet(policy=hh.CutPolicy(ch), menu=net.Menu(recv_split=True))
+    policy = SchedPolicy(ch)
+    fn = net.FakeNet(policy=policy, menu=net.Menu(recv_split=True))
     FSM.net = fn
     ck = net.clock()
     calls = []
@@ -147,11 +188,29 @@ def execute(ch, mode, kinds, method, part, states):
         cli.menu = net.Menu()
         if cli.connect_ex(("127.0.0.1", PORT)) != 0:
             raise core.BrokenCheck("fake connect failed")
+        burst = b""
+        points = []
         for rq in reqs:
             head = "%s %s HTTP/1.1\r\nHost: 127.0.0.1:%d\r\n" % (method, rq["path"], PORT)
             if rq["body"]:
                 head += "Content-Length: %d\r\n" % len(rq["body"])
-            cli.send(head.encode() + b"\r\n" + rq["body"])
+            one = head.encode() + b"\r\n" + rq["body"]
+            points += [len(burst) + k for k in request_cuts(one)]
+            burst += one
+        # the burst arrives whole (default) or in two pieces, cut inside / between the requests, with one
+        # server pass in between
+        c = ch.choose(len(points) + 1, "burst-split", 0, 1)
+        if c == 0:
+            cli.send(burst)
+        else:
+            cli.send(burst[:points[c - 1]])
+            try:
+                valet.serviceAll()
+            except Exception as ex:
+                return [("raised|%s" % hh.exc_sig(ex), "Valet.serviceAll raised %r after the first piece" % (ex,))], ["S!"], fn
+            part.transitions += 1
+            sched.append("S")
+            cli.send(burst[points[c - 1]:])
         done_at = None
         for step in range(STEPS_PER_REQ * N + TAIL):
             try:
@@ -180,6 +239,8 @@ def execute(ch, mode, kinds, method, part, states):
     else:
         patron = clienting.Patron(hostname="127.0.0.1", port=PORT, store=ck)
         patron.open()
+        patron.connector.cs.menu = net.Menu(recv_split=True, send_partial=True)
+        policy.current_request = lambda: bytes(patron.requester.msg)
         for rq in reqs:
             patron.request(method=method, path=rq["path"], body=rq["body"], rid=rq["i"])
         delivered = []          # body bytes of response i at the moment it was first seen in .responses
@@ -305,7 +366,10 @@ def work(cfg):
                              "the requests with patron.request(method, path='/<kind>/t<i>', body, rid=i); call "
                              "patron.serviceAll() / valet.serviceAll() in service_order (C = client, S = server); "
                              "choice_points list the non-default answers (side: same side again; <socket>.recv: index into "
-                             "[all, 1 byte, half, all but one])")))
+                             "[all, 1 byte, half, all but one]; <socket>.send: the client socket accepted the request only up to the "
+                             "index-th of [whole, 5, after request line, after first header, before blank line, head end, "
+                             "head end + 1] and sent the rest in its next service call; burst-split: the raw burst was "
+                             "written up to that cut, one valet.serviceAll(), then the rest)")))
         return None
 
     st = core.dfs(run, bound=bound)
